@@ -145,7 +145,7 @@ def check(ctx: Ctx) -> None:
         if cs != ["_thread.start_new_thread"]:
             ob.violation(st, st.node, f"ThreadExecModel.start uses {cs}: non-daemon threads keep a worker alive after serve() returned")
         if "MainThreadOnlyExecModel" in repo.classes and "start" in repo.cls("MainThreadOnlyExecModel").methods:
-            m = repo.cls("MainThreadOnlyExecModel").methods["start"]
+            m = repo.flat(repo.cls("MainThreadOnlyExecModel").methods["start"])
             if [unparse(c.func) for c in repo.calls_in(m)] != ["_thread.start_new_thread"]:
                 ob.violation(m, m.node, "MainThreadOnlyExecModel.start does not use daemonic low-level threads")
         for fi in repo.scan_funcs():
